@@ -1,4 +1,5 @@
 CONSTANTS Chars <- CharsFull
+          DedupByConcat = FALSE
           MaxWord = 2
           MaxDict = 2
           MaxBound = 2
